@@ -762,6 +762,10 @@ impl<'b, 'a: 'b> FmtVisitor<'a> {
         // or it can be on the same line as the last attribute.
         // So here we need to take a minimum between the two.
         let lo = std::cmp::min(attrs_end + 1, first_line);
+        // `lo` is a line of the source file, but the skipped range is expressed in lines of the
+        // output: the item is copied verbatim starting on the line the buffer is currently at.
+        let item_first_line = self.psess.line_of_byte_pos(source!(self, item_span).lo());
+        let lo = self.line_number + 1 + lo.saturating_sub(item_first_line);
         self.push_rewrite_inner(item_span, None);
         let hi = self.line_number + 1;
         self.skipped_range.borrow_mut().push((lo, hi));
